@@ -522,6 +522,40 @@ if REPLAY is not None:
 
 direct_tags()
 
+
+def direct_histories():
+    """the statements hold for the formula as it is now: natural density touched first (keyword, tag, attribute or a
+    plain read), then the formula changed in place (+=, structure assignment), then everything read again"""
+    stats["histories"] = 0
+    for _ in range(40):
+        s1 = gen_string() if rng.random() < 0.6 else rng.choice(FIXED)
+        s2 = gen_string() if rng.random() < 0.6 else rng.choice(FIXED)
+        d = density_value()
+        how = rng.choice(["keyword", "tag", "attribute", "read"])
+        try:
+            if how == "keyword":
+                f = formula(s1, natural_density=d); t = "f = formula(%r, natural_density=%r)" % (s1, d)
+            elif how == "tag":
+                f = formula(s1 + "@" + num(d) + "n"); t = "f = formula(%r)" % (s1 + "@" + num(d) + "n")
+            elif how == "attribute":
+                f = formula(s1); f.natural_density = d; t = "f = formula(%r); f.natural_density = %r" % (s1, d)
+            else:
+                f = formula(s1, density=d); f.natural_mass_ratio(); f.natural_density
+                t = "f = formula(%r, density=%r); f.natural_mass_ratio(); f.natural_density" % (s1, d)
+            g = formula(s2)
+            if rng.random() < 0.7:
+                f += g; t += "; f += formula(%r)" % s2
+            else:
+                f.structure = g.structure; t += "; f.structure = formula(%r).structure" % s2
+        except Exception as e:  # noqa
+            fail("C12:history-raises", "%s raised %s: %s" % (t if "t" in dir() else s1, type(e).__name__, e), s1)
+            continue
+        stats["histories"] += 1
+        direct_density(f, t)
+
+
+direct_histories()
+
 # the witnesses of the refuted statements and a few documented examples, replayed first
 H, D, O = PUB[1], PUB[1][2], PUB[8]
 for s0, src0, tgt0, p0 in [("H2O", H, D, 1), ("H2O@1", H, H, 1), ("HD", H, D, 1), ("H2O@1", H, D, 1), ("H2O@1", H, D, 0.5),
